@@ -1225,17 +1225,54 @@ func genAtom15(r *rand.Rand) *ast.SExpr {
 	}
 }
 
+// empty15: the empty list, written as nil or obtained from the list constructor
+func empty15(r *rand.Rand) *ast.SExpr {
+	if r.Intn(2) == 0 {
+		return ast.NewList()
+	}
+	return nil
+}
+
+// wellFormed15: nil, an atom with exactly one field set, or a pair of well-formed expressions (what the exported constructors
+// are meant to build); anything else is reported with its position
+func wellFormed15(e *ast.SExpr, path string) string {
+	if e == nil {
+		return ""
+	}
+	if (e.Pair == nil) == (e.Atom == nil) {
+		return fmt.Sprintf("at %q: an SExpr struct with Pair %v and Atom %v (neither nil, an atom nor a pair)", path, e.Pair != nil, e.Atom != nil)
+	}
+	if e.Pair != nil {
+		if m := wellFormed15(e.Pair.Car, path+"a"); m != "" {
+			return m
+		}
+		return wellFormed15(e.Pair.Cdr, path+"d")
+	}
+	return ""
+}
+
 // genExpr15: proper lists, dotted pairs, improper lists of every length (when improper), nested empty lists.
 func genExpr15(r *rand.Rand, depth int, improper bool) *ast.SExpr {
 	if depth <= 0 || r.Intn(4) == 0 {
 		if r.Intn(6) == 0 {
-			return nil
+			return empty15(r)
 		}
 		return genAtom15(r)
 	}
 	switch k := r.Intn(8); {
 	case k == 0:
-		return nil
+		return empty15(r)
+	case k == 7: // a list made by the list constructor, its tail possibly consed onto an empty list from the constructor
+		n := r.Intn(5)
+		elems := make([]*ast.SExpr, n)
+		for i := range elems {
+			elems[i] = genExpr15(r, depth-1, improper)
+		}
+		l := ast.NewList(elems...)
+		if r.Intn(3) == 0 {
+			l = ast.Cons(genExpr15(r, depth-1, improper), l)
+		}
+		return l
 	case k == 1: // dotted pair
 		return ast.Cons(genExpr15(r, depth-1, improper), genAtom15(r))
 	case k == 2 && improper: // improper list with 2..4 elements before the dot
@@ -1340,6 +1377,21 @@ func runC15(cfg *Config) *Report {
 		rep.Evaluations++
 		if stability {
 			c15Stability(rep, cf, i, src)
+			continue
+		}
+		if bad := wellFormed15(e, ""); bad != "" {
+			text, _ := realString(e)
+			desc := fmt.Sprintf("an expression built with Cons / NewList / NewSymbol / NewString / NewInt / NewVariable that prints as %q", text)
+			detail := "the constructors returned " + bad
+			if p := realParse(text); p.kind == 'A' {
+				if back, _ := realString(p.tree); back != text {
+					detail += fmt.Sprintf("; its text %q parses and prints back as %q", text, back)
+				}
+			}
+			rep.violate(i, "constructor-builds-exotic-value", desc, detail)
+			cf.add(c14Placeholder)
+			rep.CaseDesc = append(rep.CaseDesc, desc)
+			rep.CaseObs = append(rep.CaseObs, "EXOTIC "+bad)
 			continue
 		}
 		text, sp := realString(e)
